@@ -93,7 +93,11 @@ struct Tape {
   size_t n = 0, pos = 0;
   Tape() {}
   Tape(const std::vector<uint32_t> &v) : d(v.data()), n(v.size()) {}
-  uint32_t u32() { return pos < n ? d[pos++] : (pos++, 0u); }
+  // rapidcheck's sized uint32 values are far from uniform in their low bits (value % 4 == 3 for about half of
+  // them), so every raw element goes through a bijective mixer first (murmur3 finaliser; 0 stays 0, so a zeroed
+  // or exhausted tape still selects the first alternative everywhere)
+  static uint32_t mix(uint32_t x) { x ^= x >> 16; x *= 0x85ebca6bu; x ^= x >> 13; x *= 0xc2b2ae35u; x ^= x >> 16; return x; }
+  uint32_t u32() { return pos < n ? mix(d[pos++]) : (pos++, 0u); }
   uint32_t below(uint32_t k) { return k ? u32() % k : 0u; }
   int range(int lo, int hi) { return hi <= lo ? lo : lo + (int)below((uint32_t)(hi - lo + 1)); }
   bool coin() { return (u32() & 1u) != 0; }
@@ -188,12 +192,22 @@ void sut_solve(mpq_QSprob p, const SolveCfg &c, QSbasis *basis, Solution &out,
                std::vector<Q> *xfull, std::vector<Q> *y);
 // fetch the cached solution through the accessors (all of them, cross-checked)
 bool sut_fetch_solution(mpq_QSprob p, Solution &out, std::string *why);
+// every solution accessor called on its own, whatever the others answer (ok flags say which returned 0)
+struct AccessorProbe {
+  bool objval_ok = false, x_ok = false, pi_ok = false, slack_ok = false, rc_ok = false, status_ok = false, basis_ok = false;
+  int status = 0, nfail = 0;
+  Q objval;
+  std::vector<Q> x, pi, slack, rc;
+};
+void sut_probe_accessors(mpq_QSprob p, AccessorProbe &out);
 
 // ---------------------------------------------------------------- reference side (qsx_ref.cpp)
 // exact certificate checkers: return true iff the certificate proves the claim
 bool verify_optimal(const Model &m, const std::vector<Q> &x, const std::vector<Q> &pi,
                     Q *value, std::string *why);
 bool verify_farkas(const Model &m, const std::vector<Q> &y, std::string *why);
+// the weak-duality bound the multipliers pi prove for model m (false if it is infinite: wrong sign somewhere)
+bool dual_bound_of(const Model &m, const std::vector<Q> &pi, Q &bound, std::string *why);
 bool verify_ray(const Model &m, const std::vector<Q> &x, const std::vector<Q> &d, std::string *why);
 bool primal_feasible(const Model &m, const std::vector<Q> &x, std::string *why);
 // library conventions for slack and reduced cost, computed from the model
@@ -241,10 +255,11 @@ struct GenLP {
   int expect = T_UNKNOWN;                  // truth known by construction
   Q expect_value;
   std::vector<Q> wx, wy, wd;               // witnesses
+  std::string hint_cs, hint_rs;            // a basis worth warm-starting from (family specific), may be empty
 };
 void gen_lp(Tape &t, const GenOpts &o, GenLP &out);   // mixture of all families
 void gen_lp_family(Tape &t, const GenOpts &o, int family, GenLP &out);
-enum { F_RAND = 0, F_OPT, F_INF, F_FACE, F_UNB, F_ILL, F_CYC, F_SHAPE, F_NFAM };
+enum { F_RAND = 0, F_OPT, F_INF, F_FACE, F_UNB, F_ILL, F_CYC, F_SHAPE, F_FIXB, F_NFAM };
 
 // ---------------------------------------------------------------- misc
 std::string read_file(const std::string &path, bool *ok = nullptr);
